@@ -17,25 +17,45 @@ CONSTANTS MaxItems,       \* items the reader will push
           MaxEdits,       \* bound on terminal actions
           Queries,        \* e.g. {"", "a", "b", "ab"}
           AllowOlder,     \* TRUE: model the deviation that MaPick may serve the older of two pending requests
-          MaxReloads      \* bound on reload actions
+          MaxReloads,     \* bound on reload actions
+          TailN,           \* --tail N: only the last N items stay searchable (0 = option absent)
+          BumpOnTrim      \* TRUE = the code: a snapshot that trimmed the list bumps the minor revision (FALSE: deviation)
 
 None == [none |-> TRUE]
 
 (* item i carries letter "a" iff i is odd... a fixed table with all four combinations *)
 Has(i, c) == IF c = "a" THEN i % 2 = 1 \/ i % 5 = 0 ELSE i % 3 # 1
 Holds(q, i) == CASE q = "" -> TRUE [] q = "a" -> Has(i, "a") [] q = "b" -> Has(i, "b") [] q = "ab" -> Has(i, "a") /\ Has(i, "b")
-Filter(q, n) == {i \in 1..n : Holds(q, i)}
-FilterD(q, n, d) == Filter(q, n) \ d
+(* A chunk is <<lo, n>>: the items lo+1 .. lo+n.  The chunk list is a sequence of chunks; a snapshot is a copy of it. *)
+CItems(ch) == (ch[1] + 1)..(ch[1] + ch[2])
+RECURSIVE CountOf(_)
+CountOf(chs) == IF chs = <<>> THEN 0 ELSE Head(chs)[2] + CountOf(Tail(chs))
+Window(chs) == UNION {CItems(chs[k]) : k \in 1..Len(chs)}
+FilterD(q, chs, d) == {i \in Window(chs) : Holds(q, i)} \ d
+(* ChunkList.Snapshot(tail): when more than `tail` items are held, keep the shortest suffix of chunks that covers the  *)
+(* last `tail` items and replace its first chunk by a trimmed COPY (a new chunk object: new identity)                  *)
+RECURSIVE Suffix(_, _)
+Suffix(chs, need) == IF chs = <<>> \/ need <= 0 THEN <<>>
+                     ELSE Append(Suffix(SubSeq(chs, 1, Len(chs) - 1), need - chs[Len(chs)][2]), chs[Len(chs)])
+Trimmed(chs) == LET sfx == Suffix(chs, TailN)
+                    extra == CountOf(sfx) - TailN
+                IN IF extra > 0 THEN <<(<<sfx[1][1] + extra, sfx[1][2] - extra>>)>> \o SubSeq(sfx, 2, Len(sfx)) ELSE sfx
+Trims(chs) == TailN > 0 /\ CountOf(chs) > TailN
+SnapOf(chs) == IF Trims(chs) THEN Trimmed(chs) ELSE chs
 (* proper prefixes / suffixes of the cache key that ChunkCache.Search tries *)
 Narrower(q) == IF q = "ab" THEN {"a", "b"} ELSE {}
 
-NumChunks(n) == (n + ChunkSize - 1) \div ChunkSize
-ChunkItems(c, n) == {i \in 1..n : (i - 1) \div ChunkSize + 1 = c}
 (* a chunk of a snapshot can serve / feed the chunk cache iff it is full and is not the snapshot's last chunk      *)
-(* (Snapshot hands out a private copy of the last chunk, so its identity is never seen again)                      *)
-Cacheable(c, n) == c < NumChunks(n) /\ Cardinality(ChunkItems(c, n)) = ChunkSize
+(* (Snapshot hands out a private copy of the last chunk - and, under --tail, of the first one - so its identity is   *)
+(* never seen again).  Within one input generation a chunk object is identified by lo: a trimmed copy starts later.  *)
+Cacheable(c, snap) == /\ c < Len(snap) /\ snap[c][2] = ChunkSize
+                      /\ ~(TailN > 0 /\ Len(snap) > 1 /\ c = 1)
+MaxChunks == MaxItems      \* bound for the chunk index quantifier
 
 VARIABLES pushed, rdFin,
+          chunks,      \* the chunk list (reader appends; a snapshot under --tail trims it)
+          snap,        \* coordinator: the snapshot it holds (chunk sequence)
+          trims,       \* coordinator: minor-revision bumps caused by trimming snapshots (part of inputRevision.minor)
           rdKilled,    \* the coordinator terminated the running input command (reload while loading); the reader will finish
           ebox,        \* [readNew, readFin : BOOLEAN, searchNew : request record or None, searchFin : merger or None]
           reading, snapCount, snapMajor, cq, csort,              \* coordinator
@@ -51,51 +71,59 @@ VARIABLES pushed, rdFin,
           mgen,        \* matcher: <<major, gen>> of the last request served (a change clears the merger cache)
           wanted,      \* ghost: items of the current input the user has excluded
           wantedMajor  \* ghost: number of reloads the user has asked for
-vars == <<pushed, rdFin, rdKilled, ebox, reading, snapCount, snapMajor, cq, csort, major, nextCmd, rbox, reqNo, mst, mreq, mdone, macc,
+vars == <<pushed, rdFin, chunks, snap, trims, rdKilled, ebox, reading, snapCount, snapMajor, cq, csort, major, nextCmd, rbox, reqNo, mst, mreq, mdone, macc,
           msort, prevCount, mcache, ccache, tinput, tsort, tlist, edits, reloads, dev, deny, gen, mgen, wanted, wantedMajor>>
-readerVars == <<pushed, rdFin, rdKilled>>
-coordVars == <<reading, snapCount, snapMajor, cq, csort, major, nextCmd, deny, gen>>
+readerVars == <<pushed, rdFin, rdKilled, chunks>>
+coordVars == <<reading, snapCount, snapMajor, cq, csort, major, nextCmd, deny, gen, snap, trims>>
 matcherVars == <<mst, mreq, mdone, macc, msort, prevCount, mcache, mgen>>
 termVars == <<tinput, tsort, edits, reloads>>
 
-Init == /\ pushed = 0 /\ rdFin = FALSE /\ rdKilled = FALSE
+Init == /\ pushed = 0 /\ rdFin = FALSE /\ rdKilled = FALSE /\ chunks = <<>> /\ snap = <<>> /\ trims = 0
         /\ ebox = [readNew |-> FALSE, readFin |-> FALSE, searchNew |-> None, searchFin |-> None]
         /\ reading = TRUE /\ snapCount = 0 /\ snapMajor = 0 /\ cq = "" /\ csort = TRUE /\ major = 0 /\ nextCmd = FALSE
         /\ rbox = [retry |-> None, reset |-> None] /\ reqNo = 0
         /\ mst = "idle" /\ mreq = None /\ mdone = {} /\ macc = {} /\ msort = TRUE /\ prevCount = 0
         /\ mcache = [q \in Queries |-> None] /\ ccache = {}
         /\ tinput = "" /\ tsort = TRUE /\ tlist = None /\ edits = 0 /\ reloads = 0 /\ dev = {}
-        /\ deny = {} /\ gen = 0 /\ mgen = <<0, 0>> /\ wanted = {} /\ wantedMajor = 0
+        /\ deny = {} /\ gen = 0 /\ mgen = <<0, 0, 0>> /\ wanted = {} /\ wantedMajor = 0
 
 -------------------------------------------------------------------------------
 (* Reader (one input command at a time; a reload starts the next generation) *)
 RdPush == /\ ~rdFin /\ ~rdKilled /\ pushed < MaxItems
           /\ pushed' = pushed + 1
+          /\ chunks' = IF chunks = <<>> \/ chunks[Len(chunks)][2] = ChunkSize
+                       THEN Append(chunks, <<pushed, 1>>)          \* item pushed+1 opens a new chunk
+                       ELSE [chunks EXCEPT ![Len(chunks)] = <<@[1], @[2] + 1>>]
           /\ ebox' = [ebox EXCEPT !.readNew = TRUE]
           /\ UNCHANGED <<rdFin, rdKilled, coordVars, rbox, reqNo, matcherVars, ccache, termVars, tlist, dev, wanted, wantedMajor>>
 RdFin == /\ ~rdFin /\ rdFin' = TRUE
          /\ ebox' = [ebox EXCEPT !.readFin = TRUE]
-         /\ UNCHANGED <<pushed, rdKilled, coordVars, rbox, reqNo, matcherVars, ccache, termVars, tlist, dev, wanted, wantedMajor>>
+         /\ UNCHANGED <<pushed, chunks, rdKilled, coordVars, rbox, reqNo, matcherVars, ccache, termVars, tlist, dev, wanted, wantedMajor>>
 
 -------------------------------------------------------------------------------
 (* Coordinator: the handlers, as functions on a record of the variables they touch *)
-Req(q, mj, n, final, sort, no, cancel, d, g) == [q |-> q, major |-> mj, count |-> n, final |-> final, sort |-> sort, no |-> no,
-                                                cancel |-> cancel, deny |-> d, gen |-> g]
+Req(q, mj, sn, final, sort, no, cancel, d, g, tr) == [q |-> q, major |-> mj, snap |-> sn, count |-> CountOf(sn), final |-> final, sort |-> sort,
+                                                      no |-> no, cancel |-> cancel, deny |-> d, gen |-> g, trims |-> tr]
 CoState == [reading |-> reading, snapCount |-> snapCount, snapMajor |-> snapMajor, cq |-> cq, csort |-> csort, rbox |-> rbox,
             reqNo |-> reqNo, tlist |-> tlist, deny |-> deny, gen |-> gen, ccache |-> ccache, major |-> major, nextCmd |-> nextCmd,
-            pushed |-> pushed, rdFin |-> rdFin, rdKilled |-> rdKilled, wanted |-> wanted]
+            pushed |-> pushed, rdFin |-> rdFin, rdKilled |-> rdKilled, wanted |-> wanted, chunks |-> chunks, snap |-> snap,
+            trims |-> trims]
+(* chunkList.Snapshot(opts.TailN) + `if changed { inputRevision.bumpMinor() }` *)
+TakeSnap(s) == [s EXCEPT !.chunks = SnapOf(s.chunks),
+                         !.trims = IF Trims(s.chunks) /\ BumpOnTrim THEN s.trims + 1 ELSE s.trims]
 
 (* restart(): forget the exclusions, clear the chunk list, next input generation, start the reader again *)
-Restart(s) == [s EXCEPT !.deny = {}, !.wanted = {}, !.reading = TRUE, !.pushed = 0, !.major = @ + 1, !.gen = 0,
-                        !.rdFin = FALSE, !.rdKilled = FALSE]
+Restart(s) == [s EXCEPT !.deny = {}, !.wanted = {}, !.reading = TRUE, !.pushed = 0, !.major = @ + 1, !.gen = 0, !.trims = 0,
+                        !.rdFin = FALSE, !.rdKilled = FALSE, !.chunks = <<>>]
 
 HRead(s, fin) ==      \* EvtReadNew / EvtReadFin
     IF fin /\ s.nextCmd
     THEN [Restart(s) EXCEPT !.nextCmd = FALSE]                    \* the terminated command has ended: run the pending reload
     ELSE LET rd == s.reading /\ ~fin                              \* snapshot, UpdateCount, matcher.Reset(..., cancel = false)
              no == s.reqNo + 1
-         IN [s EXCEPT !.reading = rd, !.snapCount = s.pushed, !.snapMajor = s.major, !.cq = tinput, !.reqNo = no,
-                      !.rbox.retry = Req(tinput, s.major, s.pushed, ~rd, s.csort, no, FALSE, s.deny, s.gen)]
+             t == TakeSnap(s)
+         IN [t EXCEPT !.reading = rd, !.snap = t.chunks, !.snapCount = CountOf(t.chunks), !.snapMajor = s.major, !.cq = tinput, !.reqNo = no,
+                      !.rbox.retry = Req(tinput, s.major, t.chunks, ~rd, s.csort, no, FALSE, s.deny, s.gen, t.trims)]
 HSearchNew(s) ==      \* EvtSearchNew: exclusions (clear caches, bump the generation), reload, fresh snapshot, Reset(cancel)
     LET v == ebox.searchNew
         add == IF v.major = s.major THEN v.deny ELSE {}      \* exclusions of a list of another input generation are ignored
@@ -106,13 +134,15 @@ HSearchNew(s) ==      \* EvtSearchNew: exclusions (clear caches, bump the genera
               ELSE IF s1.reading THEN [s1 EXCEPT !.rdKilled = TRUE, !.nextCmd = TRUE]     \* reader.terminate(); restart at ReadFin
               ELSE Restart(s1)
         no == s2.reqNo + 1
+        s3 == TakeSnap(s2)                                        \* newSnapshot, newCount, changed := Snapshot(tail); bump if changed
         (* "we want to avoid showing an empty list when reload is triggered and the query is changed at the same time" *)
-        take == ~v.reload \/ s2.pushed > 0
-        sc == IF take THEN s2.pushed ELSE s2.snapCount
-        sm == IF take THEN s2.major ELSE s2.snapMajor
+        take == ~v.reload \/ s3.pushed > 0
+        sn == IF take THEN s3.chunks ELSE s3.snap
+        sm == IF take THEN s3.major ELSE s3.snapMajor
+        tr == IF take THEN s3.trims ELSE 0                         \* snapshotRevision stays that of the old snapshot
     IN IF ~v.changed THEN s2
-       ELSE [s2 EXCEPT !.snapCount = sc, !.snapMajor = sm, !.cq = tinput, !.reqNo = no,
-                       !.rbox.reset = Req(tinput, sm, sc, ~s2.reading, v.sort, no, TRUE, s2.deny, s2.gen)]
+       ELSE [s3 EXCEPT !.snap = sn, !.snapCount = CountOf(sn), !.snapMajor = sm, !.cq = tinput, !.reqNo = no,
+                       !.rbox.reset = Req(tinput, sm, sn, ~s3.reading, v.sort, no, TRUE, s3.deny, s3.gen, tr)]
 HSearchFin(s) == [s EXCEPT !.tlist = ebox.searchFin]      \* terminal.UpdateList
 
 Pending == (IF ebox.readFin THEN {"readFin"} ELSE IF ebox.readNew THEN {"readNew"} ELSE {})   \* ReadFin deletes ReadNew
@@ -130,24 +160,25 @@ CoWake == /\ Pending # {}
                   /\ rbox' = s.rbox /\ reqNo' = s.reqNo /\ tlist' = s.tlist
                   /\ deny' = s.deny /\ gen' = s.gen /\ ccache' = s.ccache /\ major' = s.major /\ nextCmd' = s.nextCmd
                   /\ pushed' = s.pushed /\ rdFin' = s.rdFin /\ rdKilled' = s.rdKilled /\ wanted' = s.wanted
+                  /\ chunks' = s.chunks /\ snap' = s.snap /\ trims' = s.trims
           /\ ebox' = [readNew |-> FALSE, readFin |-> FALSE, searchNew |-> None, searchFin |-> None]
           /\ UNCHANGED <<matcherVars, termVars, dev, wantedMajor>>
 
 -------------------------------------------------------------------------------
 (* Matcher *)
-Merger(r, items) == [q |-> r.q, major |-> r.major, count |-> r.count, final |-> r.final, sort |-> r.sort, items |-> items, no |-> r.no,
-                     deny |-> r.deny]
+Merger(r, items) == [q |-> r.q, major |-> r.major, snap |-> r.snap, count |-> r.count, final |-> r.final, sort |-> r.sort, items |-> items,
+                     no |-> r.no, deny |-> r.deny]
 Slots == {k \in {"retry", "reset"} : rbox[k] # None}
 Newest == CHOOSE k \in Slots : \A j \in Slots : rbox[j].no <= rbox[k].no
 
 (* after picking request r: cache decisions of Matcher.Loop; either publish at once or start scanning *)
 PickCont(r) ==
-    LET cleared == r.sort # msort \/ <<r.major, r.gen>> # mgen
+    LET cleared == r.sort # msort \/ <<r.major, r.gen, r.trims>> # mgen
         hit == ~cleared /\ r.count = prevCount /\ mcache[r.q] # None /\ mcache[r.q].final = r.final
         mc1 == IF cleared \/ r.count # prevCount THEN [q \in Queries |-> None] ELSE mcache
         immediate == r.count = 0 \/ (r.q = "" /\ r.deny = {})   \* EmptyMerger / PassMerger: no scan (a pattern with exclusions is never "empty")
-        m == IF hit THEN [mcache[r.q] EXCEPT !.final = r.final, !.no = r.no] ELSE Merger(r, FilterD("", r.count, r.deny))
-    IN /\ msort' = r.sort /\ mgen' = <<r.major, r.gen>>
+        m == IF hit THEN [mcache[r.q] EXCEPT !.final = r.final, !.no = r.no] ELSE Merger(r, FilterD("", r.snap, r.deny))
+    IN /\ msort' = r.sort /\ mgen' = <<r.major, r.gen, r.trims>>
        /\ prevCount' = IF ~cleared /\ r.count # prevCount THEN r.count ELSE prevCount
        /\ IF hit \/ immediate
           THEN /\ ebox' = [ebox EXCEPT !.searchFin = m]
@@ -164,35 +195,34 @@ MaPick == /\ mst = "idle" /\ Slots # {}
           /\ UNCHANGED <<readerVars, coordVars, reqNo, ccache, termVars, tlist, wanted, wantedMajor>>
 
 (* chunks are objects of one input generation: entries of another generation are unreachable *)
-CEntry(c, key) == {e \in ccache : e.major = mreq.major /\ e.c = c /\ e.key = key}
+CEntry(c, key) == {e \in ccache : e.major = mreq.major /\ e.lo = mreq.snap[c][1] /\ e.key = key}
 (* The chunk cache is keyed by (chunk, cache key) only; entries are tagged here with the exclusion generation they   *)
 (* were computed under (ghost).  An exact hit on an entry of another generation is the deviation StaleChunkCache     *)
 (* (finding F17): the coordinator clears the cache when it applies an exclusion, but a request of the older          *)
 (* generation that is served afterwards puts entries back.                                                           *)
 MaChunk(c) ==
-    /\ mst = "scanning" /\ c \in 1..NumChunks(mreq.count) /\ c \notin mdone
-    /\ LET n == mreq.count
-           key == mreq.q
-           usable == Cacheable(c, n) /\ key # ""
+    /\ mst = "scanning" /\ c \in 1..Len(mreq.snap) /\ c \notin mdone
+    /\ LET key == mreq.q
+           usable == Cacheable(c, mreq.snap) /\ key # ""
            exact == IF usable THEN CEntry(c, key) ELSE {}
            narrow == IF usable THEN UNION {CEntry(c, k2) : k2 \in Narrower(key)} ELSE {}
        IN \E hit \in (IF exact # {} THEN exact ELSE {None}) :
           \E space \in (IF hit # None THEN {hit.items}
-                        ELSE IF narrow # {} THEN {e.items : e \in narrow} ELSE {ChunkItems(c, n)}) :
+                        ELSE IF narrow # {} THEN {e.items : e \in narrow} ELSE {CItems(mreq.snap[c])}) :
             LET matches == IF hit # None THEN space ELSE {i \in space : Holds(key, i) /\ i \notin mreq.deny}
             IN /\ macc' = macc \cup matches
                /\ ccache' = IF usable /\ hit = None /\ Cardinality(matches) <= QueryCacheMax
-                            THEN ccache \cup {[major |-> mreq.major, c |-> c, key |-> key, items |-> matches, gen |-> mreq.gen]} ELSE ccache
+                            THEN ccache \cup {[major |-> mreq.major, lo |-> mreq.snap[c][1], key |-> key, items |-> matches, gen |-> mreq.gen]} ELSE ccache
                /\ dev' = IF hit # None /\ hit.gen # mreq.gen THEN dev \cup {"StaleChunkCache"} ELSE dev
     /\ mdone' = mdone \cup {c}
     /\ UNCHANGED <<readerVars, ebox, coordVars, rbox, reqNo, mst, mreq, msort, prevCount, mcache, mgen, termVars, tlist, wanted, wantedMajor>>
 
 (* the scan loop peeks at the request box between chunks; only a cancelling request interrupts *)
-MaSeeReset == /\ mst = "scanning" /\ rbox.reset # None /\ mdone # {} /\ mdone # 1..NumChunks(mreq.count)
+MaSeeReset == /\ mst = "scanning" /\ rbox.reset # None /\ mdone # {} /\ mdone # 1..Len(mreq.snap)
               /\ mst' = "idle" /\ mreq' = None /\ mdone' = {} /\ macc' = {}
               /\ UNCHANGED <<readerVars, ebox, coordVars, rbox, reqNo, msort, prevCount, mcache, mgen, ccache, termVars, tlist, dev, wanted,
                              wantedMajor>>
-MaPublish == /\ mst = "scanning" /\ mdone = 1..NumChunks(mreq.count)
+MaPublish == /\ mst = "scanning" /\ mdone = 1..Len(mreq.snap)
              /\ LET m == Merger(mreq, macc)
                 IN /\ ebox' = [ebox EXCEPT !.searchFin = m]
                    /\ mcache' = [mcache EXCEPT ![mreq.q] = m]
@@ -230,26 +260,38 @@ TeReload == /\ edits < MaxEdits /\ reloads < MaxReloads
             /\ dev' = IF Overwrites THEN dev \cup {"LostExclusion"} ELSE dev
             /\ UNCHANGED <<readerVars, coordVars, rbox, reqNo, matcherVars, ccache, tlist, wanted>>
 
-System == RdPush \/ RdFin \/ CoWake \/ MaPick \/ (\E c \in 1..NumChunks(MaxItems) : MaChunk(c)) \/ MaSeeReset \/ MaPublish
+System == RdPush \/ RdFin \/ CoWake \/ MaPick \/ (\E c \in 1..MaxChunks : MaChunk(c)) \/ MaSeeReset \/ MaPublish
 User == (\E q \in Queries : TeEdit(q)) \/ TeToggleSort \/ (\E i \in 1..MaxItems : TeExclude(i)) \/ TeReload
 Next == System \/ User
 Spec == Init /\ [][Next]_vars /\ WF_vars(System)
 
 -------------------------------------------------------------------------------
 (* Properties (C08, C13) *)
-IsFilter(m) == m.items = FilterD(m.q, m.count, m.deny)
+IsFilter(m) == m.items = FilterD(m.q, m.snap, m.deny) /\ m.count = CountOf(m.snap)
+(* C13 / C06: a snapshot is the whole input read so far, or exactly its last TailN items *)
+IsWindow(sn, upto) == /\ Window(sn) \subseteq 1..upto
+                      /\ (TailN = 0 => Window(sn) = 1..CountOf(sn))
+                      /\ (TailN > 0 => CountOf(sn) <= TailN /\ \E hi \in 0..upto : Window(sn) = {i \in 1..hi : i > hi - TailN})
+(* the chunk list itself is a contiguous suffix of everything pushed (pushes extend it; only snapshots trim it) *)
+SnapshotIsWindow == /\ CountOf(chunks) = Cardinality(Window(chunks))
+                    /\ \E lo \in 0..pushed : Window(chunks) = (lo + 1)..pushed
+                    /\ (TailN = 0 => CountOf(chunks) = pushed)
+                    /\ \A k \in {"retry", "reset"} : (rbox[k] # None /\ rbox[k].major = major) => IsWindow(rbox[k].snap, pushed)
 (* every result handed to the coordinator is the sequential filter of the snapshot it was asked for - never partial *)
 PublishedIsFilter == (ebox.searchFin # None /\ "StaleChunkCache" \notin dev) => IsFilter(ebox.searchFin)
 ShownIsFilter == (tlist # None /\ "StaleChunkCache" \notin dev) => IsFilter(tlist)
 MergerCacheSound == "StaleChunkCache" \notin dev => \A q \in Queries : mcache[q] # None => IsFilter(mcache[q]) /\ mcache[q].q = q
 (* chunk cache entries exist only for full, shared chunks and hold exactly that chunk's matches *)
 ChunkCacheSound == \A e \in ccache : e.major = major =>
-                       /\ Cardinality(ChunkItems(e.c, pushed)) = ChunkSize
-                       /\ (e.gen = gen /\ "StaleChunkCache" \notin dev => e.items = {i \in ChunkItems(e.c, pushed) : Holds(e.key, i) /\ i \notin deny})
+                       /\ e.lo + ChunkSize <= pushed              \* a full chunk: its items are e.lo+1 .. e.lo+ChunkSize for ever
+                       /\ (e.gen = gen /\ "StaleChunkCache" \notin dev =>
+                              e.items = {i \in (e.lo + 1)..(e.lo + ChunkSize) : Holds(e.key, i) /\ i \notin deny})
                        /\ Cardinality(e.items) <= QueryCacheMax
 Quiescent == ~ENABLED System
-Converged == /\ tlist # None /\ tlist.q = tinput /\ tlist.major = major /\ tlist.count = pushed /\ tlist.final /\ tlist.sort = tsort
-             /\ tlist.items = FilterD(tinput, pushed, wanted)
+FinalWindow == IF TailN > 0 /\ pushed > TailN THEN <<(<<pushed - TailN, TailN>>)>> ELSE <<(<<0, pushed>>)>>
+Converged == /\ tlist # None /\ tlist.q = tinput /\ tlist.major = major /\ Window(tlist.snap) = Window(FinalWindow) /\ tlist.final
+             /\ tlist.sort = tsort /\ tlist.count = CountOf(FinalWindow)
+             /\ tlist.items = FilterD(tinput, FinalWindow, wanted)
              /\ major = wantedMajor
 (* once input has ended and nothing is pending, the list is the fresh filter of the current query over the current   *)
 (* input (C08)                                                                                                        *)
